@@ -736,6 +736,16 @@ def ocanon(d):
     return ('?', repr(d))
 
 
+def has_surrogate(d):
+    if isinstance(d, str):
+        return any(0xd800 <= ord(c) <= 0xdfff for c in d)
+    if isinstance(d, list):
+        return any(has_surrogate(x) for x in d)
+    if isinstance(d, dict):
+        return any(has_surrogate(k) or has_surrogate(v) for k, v in d.items())
+    return False
+
+
 def has_float(d):
     if isinstance(d, float):
         return True
@@ -901,15 +911,24 @@ ESC_FRAGS = ['\\ud83d', '\\ude00', '\\u0041', '\\uD800', '\\uDBFF', '\\uDC00', '
 
 
 def py_loads(text):
+    """json.loads outcome; ('float',) when the text contains a float token anywhere (fraction / exponent
+    literal, NaN, Infinity) -- detected by the parse hooks, NOT by looking at the result: a float stored
+    under a key that a later duplicate overwrites is gone from the result but still outside the float-free
+    grammar of the Coq parser."""
+    seen = []
+
+    def hook(tok):
+        seen.append(tok)
+        return float(tok)
     try:
-        v = json.loads(text)
+        v = json.loads(text, parse_float=hook, parse_constant=hook)
     except json.JSONDecodeError:
         return ('reject',)
     except ValueError as e:      # CPython's int digit limit (4300): outside the modelled domain
         return ('skip', 'ValueError: ' + str(e)[:50])
     except RecursionError:
         return ('skip', 'RecursionError')
-    if has_float(v):
+    if seen or has_float(v):
         return ('float',)
     return ('ok', v)
 
@@ -1055,7 +1074,7 @@ def _check_codec(ctx, falcon, model):
         if not good:
             ctx.violation('correspondence-broken',
                           {'broken': 'C12.json_parse_corr (Coq parse vs json.loads; accept/reject and value)', 'label': label,
-                           'text': t[:400], 'text_codepoints': [ord(c) for c in t[:80]], 'json.loads': repr(r)[:400],
+                           'text': t[:5000], 'text_codepoints': [ord(c) for c in t[:300]], 'json.loads': repr(r)[:400],
                            'coq_parse': repr(o)[:400]}, found_input=False, key='codec-parse-' + label)
     ctx.sample({'codec_text': ptexts[0][1][:120], 'json.loads': repr(py_loads(ptexts[0][1]))[:120]})
 
@@ -1115,13 +1134,14 @@ def _check_codec(ctx, falcon, model):
         mod = ('bytes', bytes(o[1])) if o[0] == 0 else ('encode-error',) if o[0] == 2 else ('other', o)
         detail = {'doc': repr(d)[:400], 'handler.serialize': repr(r)[:400], 'model': repr(mod)[:400]}
         if r[0] == 'bytes':
-            # binding oracle: the round trip through the real handler
+            # binding oracle: the round trip through the real handler (documents with lone surrogates are
+            # not JSON-representable: correspondence only)
             back = real_deserialize(falcon, handler, r[1])
-            if back[0] != 'ok' or canon(back[1]) != canon(d):
+            if not has_surrogate(d) and (back[0] != 'ok' or canon(back[1]) != canon(d)):
                 ctx.violation('json-roundtrip', dict(detail, deserialized=repr(back)[:400],
                                                      what='JSONHandler.deserialize(serialize(doc)) != doc'), key='codec-json-rt')
             bodies.append((d, r[1]))
-        elif r[0] == 'other':
+        elif r[0] == 'other' or (r[0] == 'encode-error' and not has_surrogate(d)):
             ctx.violation('json-roundtrip', dict(detail, what='JSONHandler.serialize raised on a JSON-representable document'),
                           key='codec-json-ser-raise')
         if r != mod:
@@ -1187,13 +1207,19 @@ def _check_codec(ctx, falcon, model):
         r = real_deserialize(falcon, handler, b)
         ctx.note_case(('deser', b[:200], len(b)), label != 'image')
         ctx.count('handler-deserialize-' + label + '-' + r[0])
-        detail = {'label': label, 'body': repr(b[:300]), 'body_len': len(b), 'handler.deserialize': repr(r)[:300],
+        detail = {'label': label, 'body': repr(b[:3000]), 'body_len': len(b), 'handler.deserialize': repr(r)[:300],
                   'model(0=value,1=not-found,2=malformed)': repr(o)[:300]}
         if r[0] == 'other':
             ctx.violation('json-undecodable-not-400', dict(detail, error=r[1]), key='codec-deser-500')
             continue
-        if r[0] == 'ok' and has_float(r[1]):
-            good = o[0] == 2       # the float-free model rejects exactly these
+        try:
+            ref = py_loads(b.decode())
+        except UnicodeDecodeError:
+            ref = ('notutf8',)
+        if ref[0] == 'skip':
+            continue
+        if ref[0] == 'float':      # float tokens: outside the Coq grammar (model: malformed), the handler accepts
+            good = o[0] == 2 and r[0] == 'ok'
         elif r[0] == 'ok':
             good = o[0] == 0 and wj(o[1]) == ocanon(r[1])
         else:
